@@ -554,10 +554,14 @@ func (c Component) Hash() uint64 {
 	return h.Sum64()
 }
 
-// HashInto hashes the current component into the hasher
+// HashInto hashes the current component into the hasher.
+// The type and the value length are fed before the value, so that the bytes fed for a
+// sequence of components are self-delimiting: different names never feed the same input
+// (without the length, /%00%00%00%00%00%00%00%08 and // hashed identically).
 func (c Component) HashInto(h hash.Hash) {
-	tbuf := []byte{0, 0, 0, 0, 0, 0, 0, 0}
+	tbuf := []byte{0, 0, 0, 0, 0, 0, 0, 0, 0, 0, 0, 0, 0, 0, 0, 0}
 	binary.BigEndian.PutUint64(tbuf, uint64(c.Typ))
+	binary.BigEndian.PutUint64(tbuf[8:], uint64(len(c.Val)))
 	h.Write(tbuf)
 	h.Write(c.Val)
 }
